@@ -13,11 +13,13 @@ PROP = "C19"
 
 def check_file(ctl, name, content, F, st):
     P = ctl.P
-    ctl.put(content)
+    stale = pc.stale_for(name, content, P)
+    ctl.put(content, stale)
+    st["stale_tmp"] = st.get("stale_tmp", 0) + (stale is not None)
     rc, out, err = ctl.run("disable")
     new = ctl.get()
     st["runs"] += 1
-    wit = dict(file=name, content=None if content is None else content.decode("latin-1"), rc=rc,
+    wit = dict(file=name, stale_tmp=None if stale is None else stale.decode("latin-1"), content=None if content is None else content.decode("latin-1"), rc=rc,
                result=None if new is None else new.decode("latin-1"), stderr=err.decode("latin-1")[-300:])
     bad = pc.disable_check(content, new, rc, P)
     if bad:
